@@ -531,6 +531,59 @@ pub fn run(prop: &dyn Prop, tier: Tier, seed: u64) -> i32 {
     finish(prop, tier, seed, m, t0)
 }
 
+pub enum WitnessRun {
+    Sigs(Vec<String>),
+    NotRunnable,
+    Died(String),
+}
+
+/// child side: `harness witness1 <prop> <file with the witness json>` prints `SIG <signature>` per violation, `NOTRUNNABLE`, then `DONE`
+pub fn witness_child(prop: &dyn Prop, path: &str) {
+    install_panic_hook();
+    install_log_sink();
+    let w: Value = std::fs::read(path).ok().and_then(|b| serde_json::from_slice(&b).ok()).unwrap_or(Value::Null);
+    match catch(|| prop.run_witness(&w)) {
+        Ok(Some(o)) => {
+            for v in o.violations {
+                println!("SIG {}", v.sig.replace('\n', " "));
+            }
+        }
+        Ok(None) => println!("NOTRUNNABLE"),
+        Err(p) => println!("SIG uncaught-{}", p.sig().replace('\n', " ")),
+    }
+    println!("DONE");
+}
+
+fn run_witness_in_child(id: &str, witness: &Value) -> WitnessRun {
+    let dir = format!("{}/out/run", verif_dir());
+    let _ = std::fs::create_dir_all(&dir);
+    let path = format!("{}/witness-{}-{}.json", dir, id, std::process::id());
+    if std::fs::write(&path, serde_json::to_vec(witness).unwrap_or_default()).is_err() {
+        return WitnessRun::NotRunnable;
+    }
+    let exe = std::env::current_exe().expect("current_exe");
+    let out = Command::new(&exe).arg("witness1").arg(id).arg(&path).stdin(Stdio::null()).stderr(Stdio::null()).output();
+    let _ = std::fs::remove_file(&path);
+    match out {
+        Ok(o) => {
+            let text = String::from_utf8_lossy(&o.stdout).to_string();
+            if o.status.success() && text.contains("DONE") {
+                if text.lines().any(|l| l == "NOTRUNNABLE") {
+                    return WitnessRun::NotRunnable;
+                }
+                WitnessRun::Sigs(text.lines().filter_map(|l| l.strip_prefix("SIG ").map(|s| s.to_string())).collect())
+            } else {
+                use std::os::unix::process::ExitStatusExt;
+                WitnessRun::Died(match o.status.signal() {
+                    Some(s) => format!("signal:{}", s),
+                    None => format!("exit:{}", o.status.code().unwrap_or(-1)),
+                })
+            }
+        }
+        Err(_) => WitnessRun::NotRunnable,
+    }
+}
+
 /// Classify, print lines, write evidence.
 pub fn finish(prop: &dyn Prop, tier: Tier, seed: u64, mut m: Merged, t0: Instant) -> i32 {
     let id = prop.id();
@@ -555,14 +608,15 @@ pub fn finish(prop: &dyn Prop, tier: Tier, seed: u64, mut m: Merged, t0: Instant
                 .unwrap_or(Value::Null),
             None => f.witness.clone(),
         };
-        let r = catch(|| prop.run_witness(&witness));
-        let sigs: Vec<String> = match r {
-            Ok(Some(o)) => o.violations.iter().map(|v| v.sig.clone()).collect(),
-            Ok(None) => {
+        // each witness runs in a child process: a witness that makes the library abort (stack overflow, allocation failure) must
+        // not take the parent - and with it the VIOLATION line - down
+        let sigs: Vec<String> = match run_witness_in_child(id, &witness) {
+            WitnessRun::Sigs(s) => s,
+            WitnessRun::NotRunnable => {
                 m.harness_errors.push(format!("witness of {} / {} is not runnable: {}", id, f.signature, f.witness));
                 continue;
             }
-            Err(p) => vec![format!("uncaught-{}", p.sig())],
+            WitnessRun::Died(how) => vec![format!("abort:{}", how)],
         };
         m.evaluations += 1;
         let wi = f.witness["idx"].as_u64().unwrap_or(0);
